@@ -17,6 +17,7 @@ pub mod c14;
 pub mod ser;
 pub mod c15;
 pub mod c17;
+pub mod c18;
 pub mod td_common;
 pub mod c16;
 
@@ -37,6 +38,7 @@ macro_rules! dispatch {
             "C14" => c14::$f($ctx $(, $arg)*),
             "C15" => c15::$f($ctx $(, $arg)*),
             "C17" => c17::$f($ctx $(, $arg)*),
+            "C18" => c18::$f($ctx $(, $arg)*),
             "C16" => c16::$f($ctx $(, $arg)*),
             other => {
                 let msg = format!("no monitor for property {}", other);
